@@ -265,6 +265,9 @@ func runC15(c *Ctx) {
 	}
 	c.floor("C15.3", "filesystem mutator call sites in internal/llmsetup", nMut, 5)
 
+	// C15.6 a re-run completes an interrupted installation: Install has no success path around the walk
+	ruleInstallWalksBeforeSuccess(c, "C15.6", L.fn(llmPkg, "Install"))
+
 	// C15.5 propagation up to the command: callers of publishing functions, of Install, and the Run methods
 	c15Propagation(c, fns, pubs0(pubs))
 }
